@@ -124,6 +124,9 @@ def main():
     for pid in ALL:
         if pid not in CLAIMED:
             na.append({"property_id": pid, "reason": PENDING.get(pid, "check not built yet in this round (work in progress; see DESIGN.md section 5 for the planned oracle)")})
+    for c in checks:
+        if c["property_id"] in ("C08", "C09", "C10", "C11", "C12", "C13"):
+            c["technique"] += "; thorough tier adds a coverage-guided libFuzzer campaign over the same decoder and oracle"
     m = {
         "version": 1,
         "setup_cmd": "./check --setup",
@@ -137,6 +140,8 @@ def main():
         "engines": [
             {"name": "oxv", "path": "/verif/harness", "serves_properties": [c["property_id"] for c in checks if c["engine"] == "oxv"],
              "kind_free_text": "Rust binary: proptest 1.11 TestRunner driven from a binary over choice sequences (16 workers), exhaustive lattices, bounded-exhaustive scripted exploration, shrinking to replay files, known-findings handling"},
+            {"name": "fuzz", "path": "/verif/fuzz", "serves_properties": ["C08", "C09", "C10", "C11", "C12", "C13"],
+             "kind_free_text": "cargo-fuzz / libFuzzer targets (thorough tier): bytes are decoded as little-endian u64 choices and fed to the same generator and the same oracle as the proptest part; 8 jobs x 1.5e6 runs, ASan"},
             {"name": "py", "path": "/verif/py", "serves_properties": [c["property_id"] for c in checks if c["engine"] == "py"],
              "kind_free_text": "Hypothesis 6 (python3-vt) driving oxmpl_py built from /repo's working tree, with `oxv refserver` as the Rust-core reference"},
         ],
